@@ -130,15 +130,17 @@ func (c *context) SendMsg(m *protocol.Message) error {
 		sock:   s,
 	}
 
-	m.MakeUnique()
-	m.Header = make([]byte, 4)
-	binary.BigEndian.PutUint32(m.Header, newsurv.id)
-
 	s.Lock()
 	if s.closed || c.closed {
 		s.Unlock()
 		return protocol.ErrClosed
 	}
+	// The survey goes out under our own header, so we need a message that
+	// nobody else holds: the caller may have kept a reference of its own.
+	m = m.MakeUnique()
+	m.Header = make([]byte, 4)
+	binary.BigEndian.PutUint32(m.Header, newsurv.id)
+
 	oldsurv := c.surv
 	newsurv.start(c.recvQLen, c.survExpire)
 	if oldsurv != nil {
